@@ -66,6 +66,10 @@ def run(ctx: Ctx):
             q = f"{c.name}.{f.name}"
             got = omit(c.name, f.name)
             want = q not in exp
+            if not f.has_default and q not in exp:
+                # a required attribute is never unset: omit_if_default has nothing to compare it with (either value is fine)
+                ctx.ok("omit-iff-not-special", {"attr": q, "required": True})
+                continue
             ctx.check(got == want, "omit-iff-not-special", q,
                       f"_omit({c.name}, {f.name!r}) folds to {got}; the rule requires {want} "
                       f"({exp.get(q, 'plain optional/required property')})", P_HOOKS, f.lineno,
